@@ -287,7 +287,9 @@ class KMatrix(ModelItem):
         if initial_concentration[0] != 1 or np.any(initial_concentration[1:] != 0):
             return False
         matrix = self.reduced(compartments)
+        # every compartment decays only into the next one, the last one only to the ground state
+        last = matrix.shape[1] - 1
         return not any(
-            np.nonzero(matrix[:, i])[0].size != 1 or i != 0 and matrix[i, i - 1] == 0
+            np.nonzero(matrix[:, i])[0].size != 1 or matrix[min(i + 1, last), i] == 0
             for i in range(matrix.shape[1])
         )
